@@ -150,7 +150,7 @@ theorem serElement_select (L : Nat) (sel : Inline Bytes) (vs : List (Variant Byt
     simp only [indent_buffer]
     rw [hb4, hb3, hb2, hb1]
     apply Array.ext'
-    simp [exprText]
+    simp [exprText, inlineText_valid L sel hsel]
 
 /-! ## the parser on a select expression -/
 
@@ -324,20 +324,20 @@ theorem variantText_eq (L : Nat) (key : VKey Bytes) (value : List (PatElem Bytes
   simp [variantText, patText]
 
 /-- the line after a variant value: the next variant or the closing brace -/
-theorem stopper_after_variant (s : Src) (L : Nat) (rest : List (Variant Bytes)) (q : Nat)
-    (h : At s q (variantsText (L + 1) rest ++ spacesL (4 * L) ++ [125])) : Stopper s q := by
+theorem stopper_after_variant (s : Src) (L G : Nat) (rest : List (Variant Bytes)) (q : Nat)
+    (h : At s q (variantsText (L + 1) rest ++ spacesL G ++ [125])) : Stopper s q := by
   cases rest with
   | nil =>
     simp only [variantsText, List.nil_append] at h
     rw [at_append] at h
     simp only [at_cons] at h
-    have h125 : s[q + 4 * L]? = some 125 := by simpa [spacesL] using h.2.1
-    by_cases hL : L = 0
+    have h125 : s[q + G]? = some 125 := by simpa [spacesL] using h.2.1
+    by_cases hL : G = 0
     · subst hL
       right; left
       exact ⟨125, by simpa using h125, by decide, by decide, by decide, by decide⟩
     · right; right
-      exact ⟨4 * L, 125, by omega, at_spaces s q _ h.1, h125, Or.inr (Or.inr (Or.inr rfl))⟩
+      exact ⟨G, 125, by omega, at_spaces s q _ h.1, h125, Or.inr (Or.inr (Or.inr rfl))⟩
   | cons v vs =>
     obtain ⟨key, value, dflt⟩ := v
     simp only [variantsText, variantText_eq, List.append_assoc] at h
@@ -359,27 +359,27 @@ theorem stopper_after_variant (s : Src) (L : Nat) (rest : List (Variant Bytes)) 
 
 theorem getVariants_text {s : Src} (hs : AsciiThenBoundary s) (L : Nat) (vs : List (Variant Bytes))
     (hv : ∀ v ∈ vs, validKey (variantKey' v) = true ∧ PatRT (L + 1) (variantValue v)) :
-    ∀ (LS n : Nat) (hd : Bool) (acc : List (Variant Span)),
-      At s LS (variantsText (L + 1) vs ++ spacesL (4 * L) ++ [125]) →
+    ∀ (G LS n : Nat) (hd : Bool) (acc : List (Variant Span)),
+      At s LS (variantsText (L + 1) vs ++ spacesL G ++ [125]) →
       (vs.filter isDefault).length + (if hd then 1 else 0) = 1 →
       4 * (variantsText (L + 1) vs).length + 9 ≤ n →
-      ∃ vs', getVariants s n hd acc (skipBlank s LS) = .ok (acc ++ vs') (LS + (variantsText (L + 1) vs).length + 4 * L) ∧
+      ∃ vs', getVariants s n hd acc (skipBlank s LS) = .ok (acc ++ vs') (LS + (variantsText (L + 1) vs).length + G) ∧
         mapVariants (spanBytes s) vs' = vs := by
   induction vs with
   | nil =>
-    intro LS n hd acc hat hcount hn
+    intro G LS n hd acc hat hcount hn
     obtain ⟨m, rfl⟩ : ∃ m, n = m + 1 := ⟨n - 1, by omega⟩
     simp only [variantsText, List.nil_append, List.length_nil, Nat.add_zero] at hat ⊢
     rw [at_append] at hat
     simp only [at_cons] at hat
-    have h125 : s[LS + 4 * L]? = some 125 := by simpa [spacesL] using hat.2.1
+    have h125 : s[LS + G]? = some 125 := by simpa [spacesL] using hat.2.1
     have hhd : hd = true := by cases hd <;> simp_all
     subst hhd
-    rw [skipBlank_run s (4 * L) LS 125 (at_spaces s LS _ hat.1) h125 (by decide) (by decide) (by decide),
+    rw [skipBlank_run s G LS 125 (at_spaces s LS _ hat.1) h125 (by decide) (by decide) (by decide),
       getVariants_end s m _ acc h125]
     exact ⟨[], by simp, rfl⟩
   | cons v rest ih =>
-    intro LS n hd acc hat hcount hn
+    intro G LS n hd acc hat hcount hn
     obtain ⟨key, value, dflt⟩ := v
     obtain ⟨m, rfl⟩ : ∃ m, n = m + 1 := ⟨n - 1, by omega⟩
     have hv0 := hv (.mk key value dflt) (List.mem_cons_self)
@@ -400,7 +400,7 @@ theorem getVariants_text {s : Src} (hs : AsciiThenBoundary s) (L : Nat) (vs : Li
     simp only [List.length_append, List.length_cons, List.length_nil] at hkeyAt hpatAt0 hrestAt0 hn ⊢
     rw [hprelen] at hkeyAt hpatAt0 hrestAt0 hn ⊢
     have hrestAt : At s (LS + (4 * (L + 1) + ((keyBytes key).length + (0 + 1) + 1 + ((patText (L + 1) value).length + 1))))
-        (variantsText (L + 1) rest ++ spacesL (4 * L) ++ [125]) := by
+        (variantsText (L + 1) rest ++ spacesL G ++ [125]) := by
       have := hrestAt0
       simp only [List.cons_append, List.nil_append, at_cons] at this
       have h2 := this.2
@@ -448,7 +448,7 @@ theorem getVariants_text {s : Src} (hs : AsciiThenBoundary s) (L : Nat) (vs : Li
     -- the value
     have hq' : LS + 4 * (L + 1) + 1 + (keyBytes key).length + 1 + (patText (L + 1) value).length + 1 =
         LS + (4 * (L + 1) + ((keyBytes key).length + (0 + 1) + 1 + ((patText (L + 1) value).length + 1))) := by omega
-    have hstop := stopper_after_variant s L rest _ hrestAt
+    have hstop := stopper_after_variant s L G rest _ hrestAt
     obtain ⟨value', hpat, hmv⟩ := hv0.2.parse s (LS + 4 * (L + 1) + 1 + (keyBytes key).length + 1)
       (LS + 4 * (L + 1) + 1 + (keyBytes key).length + 1 + (patText (L + 1) value).length + 1) m hs
       (by rw [show LS + 4 * (L + 1) + 1 + (keyBytes key).length + 1 =
@@ -457,7 +457,7 @@ theorem getVariants_text {s : Src} (hs : AsciiThenBoundary s) (L : Nat) (vs : Li
     obtain ⟨key', hmk, hstep⟩ := getVariants_step hs m (skipBlank s LS) hd dflt acc key hv0.1 value' _ hP.2
       (by rw [hB]; exact hkeyAt) (by rw [hB]; exact hpat)
     rw [hstep]
-    obtain ⟨vs', hloop, hmvs⟩ := ih hvr
+    obtain ⟨vs', hloop, hmvs⟩ := ih hvr G
       (LS + 4 * (L + 1) + 1 + (keyBytes key).length + 1 + (patText (L + 1) value).length + 1) m (hd || dflt)
       (acc ++ [.mk key' value' dflt])
       (by rw [hq']; exact hrestAt)
@@ -491,13 +491,13 @@ theorem plRT_select (L : Nat) (sel : Inline Bytes) (vs : List (Variant Bytes)) (
     simp only [validSelector, Bool.and_eq_true] at hsel; exact hsel.1
   refine ⟨by simp [exprText], by
     have : exprText L (.select sel vs) = (123 :: 32 :: (inlineBytes sel ++ [32, 45, 62, 10] ++ variantsText (L + 1) vs ++
-        spacesL (4 * L))) ++ [125] := by simp [exprText]
+        spacesL (4 * L))) ++ [125] := by simp [exprText, inlineText_valid L sel hvsel]
     rw [this, List.getLast?_append]; rfl, fun w nl hw => serElement_select L sel vs hvsel hv w nl hw, ?_⟩
   intro s p n hs hat hn
   obtain ⟨k, rfl⟩ : ∃ k, n = k + 2 := ⟨n - 2, by omega⟩
   have htxt : exprText L (.select sel vs) =
       [123, 32] ++ inlineBytes sel ++ [32, 45, 62, 10] ++ (variantsText (L + 1) vs ++ spacesL (4 * L) ++ [125]) := by
-    simp [exprText]
+    simp [exprText, inlineText_valid L sel hvsel]
   rw [htxt] at hat hn ⊢
   rw [at_append, at_append, at_append] at hat
   obtain ⟨⟨⟨h0, hselAt⟩, harrow⟩, hvarsAt⟩ := hat
@@ -513,7 +513,7 @@ theorem plRT_select (L : Nat) (sel : Inline Bytes) (vs : List (Variant Bytes)) (
     (by decide) (by decide) (by decide) (by decide) (by decide)
   have hfu := fuelInline_le sel hvsel
   obtain ⟨e', he, hme⟩ := getInline_bytes hs sel hvsel (p + 2) k hselAt' hfol (by omega)
-  obtain ⟨vs', hvs, hmvs⟩ := getVariants_text hs L vs hv (p + 2 + (inlineBytes sel).length + 1 + 3) k false []
+  obtain ⟨vs', hvs, hmvs⟩ := getVariants_text hs L vs hv (4 * L) (p + 2 + (inlineBytes sel).length + 1 + 3) k false []
     (by rw [show p + 2 + (inlineBytes sel).length + 1 + 3 = p + (0 + 1 + 1 + (inlineBytes sel).length + (0 + 1 + 1 + 1 + 1)) by
           omega]; exact hvarsAt)
     (by simp [hdef]) (by omega)
@@ -537,76 +537,5 @@ theorem plRT_select (L : Nat) (sel : Inline Bytes) (vs : List (Variant Bytes)) (
   congr 1
   simp [spacesL]
   omega
-
-/-! ## the class of patterns, closed under nesting -/
-
-mutual
-/-- placeables of the class: an inline expression (no term attribute), or a select whose selector is
-accepted by the parser, with exactly one default variant, valid keys and class patterns as values -/
-def rtExpr : Expr Bytes → Bool
-  | .inline i => validInner (.inline i)
-  | .select sel vs => validSelector sel && rtVariants vs && decide ((vs.filter isDefault).length = 1)
-def rtVariants : List (Variant Bytes) → Bool
-  | [] => true
-  | v :: vs => rtVariant v && rtVariants vs
-def rtVariant : Variant Bytes → Bool
-  | .mk key value _ => validKey key && mlPattern value && rtElems value
-def rtElems : List (PatElem Bytes) → Bool
-  | [] => true
-  | .text _ :: es => rtElems es
-  | .placeable x :: es => rtExpr x && rtElems es
-end
-
-/-- **`RoundTrippable` patterns**: `mlPattern` (line-split texts, line starts, common indent, trims) with
-placeables of the class, recursively -/
-def rtPattern (p : List (PatElem Bytes)) : Bool := mlPattern p && rtElems p
-
-mutual
-theorem rtExpr_plRT (x : Expr Bytes) (h : rtExpr x = true) (L : Nat) : PlRT L x := by
-  cases x with
-  | inline i => simp only [rtExpr] at h; exact plRT_inline L i h
-  | select sel vs =>
-    simp only [rtExpr, Bool.and_eq_true, decide_eq_true_eq] at h
-    exact plRT_select L sel vs h.1.1 (rtVariants_ok vs h.1.2 L) h.2
-theorem rtVariants_ok (vs : List (Variant Bytes)) (h : rtVariants vs = true) (L : Nat) :
-    ∀ v ∈ vs, validKey (variantKey' v) = true ∧ PatRT (L + 1) (variantValue v) := by
-  cases vs with
-  | nil => intro v hv; simp at hv
-  | cons v0 vs =>
-    simp only [rtVariants, Bool.and_eq_true] at h
-    intro v hv
-    simp only [List.mem_cons] at hv
-    rcases hv with hv | hv
-    · rw [hv]; exact rtVariant_ok v0 h.1 L
-    · exact rtVariants_ok vs h.2 L v hv
-theorem rtVariant_ok (v : Variant Bytes) (h : rtVariant v = true) (L : Nat) :
-    validKey (variantKey' v) = true ∧ PatRT (L + 1) (variantValue v) := by
-  cases v with
-  | mk key value d =>
-    simp only [rtVariant, Bool.and_eq_true] at h
-    exact ⟨h.1.1, patRT_of_ml (L + 1) value h.1.2 (fun x hx => rtElems_ok value h.2 _ x hx)⟩
-theorem rtElems_ok (es : List (PatElem Bytes)) (h : rtElems es = true) (L : Nat) :
-    ∀ x, PatElem.placeable x ∈ es → PlRT L x := by
-  cases es with
-  | nil => intro x hx; simp at hx
-  | cons e es =>
-    intro x hx
-    cases e with
-    | text v =>
-      simp only [rtElems] at h
-      simp only [List.mem_cons, reduceCtorEq, false_or] at hx
-      exact rtElems_ok es h L x hx
-    | placeable y =>
-      simp only [rtElems, Bool.and_eq_true] at h
-      simp only [List.mem_cons, PatElem.placeable.injEq] at hx
-      rcases hx with hx | hx
-      · rw [hx]; exact rtExpr_plRT y h.1 L
-      · exact rtElems_ok es h.2 L x hx
-end
-
-/-- **every pattern of the class round-trips at every indent level** -/
-theorem rtPattern_patRT (p : List (PatElem Bytes)) (h : rtPattern p = true) (L : Nat) : PatRT L p := by
-  simp only [rtPattern, Bool.and_eq_true] at h
-  exact patRT_of_ml L p h.1 (fun x hx => rtElems_ok p h.2 _ x hx)
 
 end FluentProofs.Ser
